@@ -81,6 +81,20 @@ async fn batching(net: &Net) -> Case {
     r.case("C11Case", "batching", f, json!({}))
 }
 
+/// two peers delete one row in the SAME millisecond while holding different versions of it: the two
+/// deletion records have the same key (row, deletion date)
+async fn same_ms_deletes(net: &Net) -> Case {
+    let mut r = Runner::new(net, 2).await;
+    let t = T0 + 1000;
+    r.exec(Op::Create { p: 0, x: 1, t }).await;
+    r.exec(Op::Pull { dst: 1, src: 0, t: t + 1 }).await;
+    r.exec(Op::Update { p: 0, x: 1, t: t + 4000 }).await;
+    r.exec(Op::Delete { p: 0, x: 1, t: t + 8000 }).await;
+    r.exec(Op::Delete { p: 1, x: 1, t: t + 8000 }).await;
+    let f = r.settle(t + 10_000, 5).await;
+    r.case("C11Case", "same_ms_deletes", f, json!({}))
+}
+
 /// one create + one delete, then a generated order of directed pulls over 3 peers
 async fn order_case(net: &Net, rng: &mut Rng, len: usize, same_day: bool) -> Case {
     let mut r = Runner::new(net, 3).await;
@@ -180,6 +194,7 @@ async fn main() {
     out.push(concurrent_refs(&net, false).await);
     out.push(ref_readd(&net).await);
     out.push(same_ref(&net).await);
+    out.push(same_ms_deletes(&net).await);
     for _ in 0..scale(10, 300) {
         let mut r = rng.fork();
         out.push(refs_case(&net, &mut r).await);
